@@ -978,7 +978,8 @@ func (c *Ctx) checkGoroutines() {
 					done++
 					usesWG = true
 				}
-				if e.Kind == EvCall && e.callName() == "(*sync.WaitGroup).Add" && !addInLoop {
+				if e.Kind == EvCall && e.callName() == "(*sync.WaitGroup).Add" && !addInLoop && len(e.Args) > 0 && e.Args[0].root() != nil && e.Args[0].root().Kind != KAlloc {
+					// (a wait group the loop allocates for helpers of its own is its own business)
 					addInLoop = true
 					c.violated("C14.goroutines", cons, e.Pos, "the consumer loop registers itself with WaitGroup.Add after it has been started: an owner's Wait that runs before the goroutine is scheduled returns while the lane is alive and accepted calls are still queued (Add must precede the go statement)", c.witness(t, i)...)
 				}
